@@ -339,11 +339,18 @@ class Interp:
             if t is False:
                 return self.run(st.orelse, p) if st.orelse else [p]
             pt, pf = p.fork(), p.fork()
-            feasible = self.refine(st.test, pt)
+            feasible = self.refine(nnf(st.test), pt)
             pt.guards.append(ast.unparse(st.test))
             if feasible:
                 out.extend(self.run(st.body, pt))
-            out.extend(self.run(st.orelse, pf) if st.orelse else [pf])
+            # the other arm holds the negation (pushed inwards: `not (a >= t or b <= -t)` is `a < t and b > -t`)
+            neg = nnf(ast.UnaryOp(op=ast.Not(), operand=st.test))
+            refines = isinstance(neg, ast.Compare) or (isinstance(neg, ast.BoolOp) and isinstance(neg.op, ast.And))
+            feasible_f = self.refine(neg, pf) if refines else True
+            if refines and st.orelse:
+                pf.guards.append(ast.unparse(neg))
+            if feasible_f:
+                out.extend(self.run(st.orelse, pf) if st.orelse else [pf])
             return out
         if isinstance(st, ast.For):
             # for i, col in enumerate(X) with known column count: unroll
@@ -440,6 +447,31 @@ class Interp:
                 if a.lo > a.hi:
                     return False
         return True
+
+
+def nnf(test):
+    """negation normal form of a test: `not` pushed down to the comparisons (which flip their operator)"""
+    flip = {ast.Lt: ast.GtE, ast.LtE: ast.Gt, ast.Gt: ast.LtE, ast.GtE: ast.Lt, ast.Eq: ast.NotEq, ast.NotEq: ast.Eq,
+            ast.Is: ast.IsNot, ast.IsNot: ast.Is, ast.In: ast.NotIn, ast.NotIn: ast.In}
+
+    def pos(t):
+        if isinstance(t, ast.UnaryOp) and isinstance(t.op, ast.Not):
+            return neg(t.operand)
+        if isinstance(t, ast.BoolOp):
+            return ast.copy_location(ast.BoolOp(op=t.op, values=[pos(v) for v in t.values]), t)
+        return t
+
+    def neg(t):
+        if isinstance(t, ast.UnaryOp) and isinstance(t.op, ast.Not):
+            return pos(t.operand)
+        if isinstance(t, ast.BoolOp):
+            op = ast.Or() if isinstance(t.op, ast.And) else ast.And()
+            return ast.copy_location(ast.BoolOp(op=op, values=[neg(v) for v in t.values]), t)
+        if isinstance(t, ast.Compare) and len(t.ops) == 1 and type(t.ops[0]) in flip:
+            return ast.copy_location(ast.Compare(left=t.left, ops=[flip[type(t.ops[0])]()], comparators=t.comparators), t)
+        return ast.copy_location(ast.UnaryOp(op=ast.Not(), operand=t), t)
+
+    return ast.fix_missing_locations(pos(test))
 
 
 def _num(v):
